@@ -251,6 +251,7 @@ class History:
         self.dirty_sources = set()    # sources written by the harness since the last successful build that reached them
         self.dirty_outputs = set()    # outputs tampered with since the last successful build that reached their producer
         self.nbuilds = 0
+        self.ever_ran = set()     # commands that executed at least once in the sandbox
         self.soft = {}            # directory output -> counter of modifications of entries inside it
         self.entry_modified = set()   # directory outputs with an entry overwritten since their producer last ran
         self.sig_of_tokens, self.tokens_of_sig = {}, {}
@@ -581,8 +582,8 @@ class History:
                     e["inputs"] = [i for i in e["inputs"] if i != o]
                 for t in Q.targets:
                     Q.targets[t] = [i for i in Q.targets[t] if i != o]
-            else:
-                Q.version.pop(o, None)
+            elif n in self.ever_ran:
+                Q.version.pop(o, None)          # whatever the command left there is a new source version
         for t in Q.targets:
             if not Q.targets[t]:
                 Q.targets[t] = ["<all>"]
@@ -666,7 +667,6 @@ class History:
             new = {"G%d" % k: dict(tool="shell", inputs=ins, outputs=[s], tag="G%d" % k, contents="")}
             new.update(Q.cmds)
             Q.cmds = new
-            Q.version.pop(s, None)
             return "G%d->%s" % (k, s)
         return self.try_edit(f)
 
@@ -797,13 +797,15 @@ class History:
                             any(n in o1["srcs"] and o0["srcs"][n] != o1["srcs"][n] for n in o0["srcs"]):
                         must.add(c)
         # the model's verdict on what the database holds, in the world as it is before the build
-        reach_nodes = list(dict.fromkeys([n for c in reach for n in P.cmds[c]["inputs"] + P.cmds[c]["outputs"]] + list(tnodes)))
+        # the node keys the engine requests: the target's nodes and the inputs of every reachable command
+        reach_nodes = list(dict.fromkeys([n for c in reach for n in P.cmds[c]["inputs"]] + list(tnodes)))
         keys = ["C" + c for c in reach] + ["N" + n for n in reach_nodes]
         in_model = P.in_model(reach)
         pre = self.verdicts(self.read_db(), keys) if in_model else {}
         unchanged_def = lambda c: c in self.uptodate and self.uptodate[c][1]["defn"] == owns[c]["defn"]
         rc, out, err, ran = self.run_llbuild(self.S, tname, serial, os.path.join(self.S, "build.db"))
         self.nbuilds += 1
+        self.ever_ran |= set(ran)
         muts = tuple(self.pending)
         self.pending = []
         entry = dict(op="build", target=tname, nodes=tnodes, serial=serial, rc=rc, ran=sorted(ran), after=list(muts))
@@ -1023,19 +1025,26 @@ def finish(chk):
         "commands are deterministic functions of their declared inputs (the harness's sh one-liners; Section variable F in the model)",
         "observable edits: every harness write changes a FileInfo field the code compares (fresh explicit mtime, or same mtime and different size); "
         "commands' own writes get distinct kernel timestamps",
-        "not modelled: directory-tree nodes, discovered dependencies, stat/custom keys, command-timestamp nodes, link-output-path, parent-directory creation",
+        "not modelled in Coq (exercised against the actual clean build only): shell commands with a directory output and directory-tree nodes; "
+        "not modelled nor exercised: discovered dependencies, stat/custom keys, command-timestamp nodes, link-output-path",
+        "a command that declares a directory as its output recreates it from scratch (rm -rf; mkdir; write entries): the directory is a function of the inputs",
         "signature injectivity is a premise of c08_description_edit* (ideal hash; proved for token lists in the signature area)"]
     builds = chk.cov.get("traces_validated_against_impl", 0) + chk.cov.get("failed_builds", 0)
     if chk.cov.get("traces_validated_against_impl", 0) < 0.8 * max(1, chk.cov["evaluations"]) and not chk.violations:
         chk.violation("c08-vacuous", "fewer than 80%% of the builds were successful and compared (%d of %d): the check is not exercising the property" %
                       (chk.cov.get("traces_validated_against_impl", 0), chk.cov["evaluations"]), dict(coverage=chk.cov), found_input=False, broken="c08 harness")
     return chk.finish(level="proof",
-                      rule="histories: a generated description (4-10 commands: shell one-liners writing tag+index+concatenated inputs, phony, mkdir, symlink; "
-                           "virtual nodes; multiple outputs; targets sharing sub-graphs) followed by 5-7 builds, each after 0-2 mutations drawn from "
+                      rule="histories: a generated description (4-10 commands: shell one-liners writing tag+index+concatenated inputs, shell commands whose declared output "
+                           "is a directory they recreate and populate (as directory node 'g/' or as plain node), consumers of such directories, phony, mkdir, symlink; "
+                           "virtual nodes with and without producer; multiple outputs; targets sharing sub-graphs) followed by 5-7 builds, each after 0-2 mutations drawn from "
                            "{edit source (fresh mtime | same mtime, other size), delete output, delete LAST output, overwrite output (fresh mtime | same mtime, other size), "
-                           "nothing, change args, add command, add output, remove command, rewire input, source->produced, produced->source, change link}; "
+                           "delete / add / overwrite an entry INSIDE a produced directory (explicit mtimes), "
+                           "nothing, change args, add command, add output, remove command, rewire input, source->produced, produced->source, change link, "
+                           "virtual input gains a producer with a file output, virtual node loses its producer}; "
                            "each build picks the default target / a second target / a single node and --serial or parallel, over one database in new processes. "
-                           "After every successful build: reachable outputs == actual clean build == model clean; run log vs must-run / must-not-run sets. "
+                           "After every successful build: reachable outputs (entries of produced directories included) == actual clean build == model clean; run log vs "
+                           "must-run / must-not-run sets; model validity verdicts on the stored values; model signature tokens <-> stored signatures one-to-one. "
+                           "Builds reaching a directory-producing command are compared with the actual clean build only (outside the Coq model: builds_outside_model). "
                            "evaluations = builds; non-trivial = a build after >=1 mutation in which >=1 command ran; distinct by (mutations, target kind, serial)",
                       trusted=["hand-written model coq/BSys/RulesBS.v (validity, run effects, clean build), tied to the code by the clean-build differential only",
                                "coq/BSys/Sig.v definitions (shared model of ExternalCommand::isResultValid and the signature token lists)",
